@@ -32,6 +32,9 @@ pub enum Inject {
     BackwardAtSize(u8, u8),
     /// valid program placed so high that the image ends around the top of memory (selector)
     HighOrigin(u8),
+    /// the file holds bytes that are not UTF-8 (a lone Latin-1 byte, a truncated sequence, 0xFF):
+    /// in a comment, in a string literal, as a token of its own, in a label (selector)
+    InvalidUtf8(u8),
 }
 
 #[derive(Clone, Debug, Serialize, Deserialize)]
@@ -64,6 +67,27 @@ fn pcrel_form(k: u8) -> (Op, Vec<u8>) {
     forms[k as usize % forms.len()].clone()
 }
 
+/// The bytes of the source file: the text, with the placeholder of `Inject::InvalidUtf8` replaced
+/// by bytes that are not UTF-8.
+fn file_bytes(text: &str, inject: Inject) -> Vec<u8> {
+    let Inject::InvalidUtf8(sel) = inject else { return text.as_bytes().to_vec() };
+    let raw: &[u8] = [&[0xE9u8][..], &[0xC3], &[0xFF], &[0xE2, 0x82], &[0xED, 0xA0, 0x80], &[0x80]][(sel as usize / 4) % 6];
+    let mut out = Vec::new();
+    let placeholder = "\u{E000}".as_bytes();
+    let bytes = text.as_bytes();
+    let mut i = 0;
+    while i < bytes.len() {
+        if bytes[i..].starts_with(placeholder) {
+            out.extend_from_slice(raw);
+            i += placeholder.len();
+        } else {
+            out.push(bytes[i]);
+            i += 1;
+        }
+    }
+    out
+}
+
 fn source_for(spec: &ProgSpec, inject: Inject) -> Option<(String, bool, bool, Option<refasm::RefImage>)> {
     // an injected statement goes behind the program: keep the image-fit padding (which fills the
     // address space) out of those cases, or label distances beyond 2^16 come into play (C04's
@@ -84,6 +108,13 @@ fn source_for(spec: &ProgSpec, inject: Inject) -> Option<(String, bool, bool, Op
         Inject::DuplicateLabel => extra.push_str("MAIN add r0 r0 r0\n"),
         Inject::UndefinedLabel => extra.push_str("br NOSUCHLABEL\n"),
         Inject::RepeatedOrig => extra.push_str(".orig x3000\n.orig x3000\n"),
+        // (U+E000 stands for the raw bytes, which `file_bytes` puts in its place)
+        Inject::InvalidUtf8(sel) => extra.push_str(match sel % 4 {
+            0 => "halt ; caf\u{E000} au lait\n",
+            1 => "LATIN .stringz \"na\u{E000}ve\"\n",
+            2 => "\u{E000}\n",
+            _ => "lbl\u{E000} halt\n",
+        }),
         Inject::BackwardAtSize(..) | Inject::HighOrigin(_) => {}
         Inject::OutOfReach(pos, form) => {
             let (op, regs) = pcrel_form(form);
@@ -170,10 +201,11 @@ fn judge_source(spec: &ProgSpec, inject: Inject, stack_flag: bool) -> Obs {
     obs.key = hash_of(&(&text, stack_flag));
     let shown = format!("inject={inject:?} -f stack: {stack_flag}, uses stack mnemonics: {uses_stack}\n{text}");
     obs.show = Some(shown.clone());
-    obs.nontrivial = matches!(inject, Inject::OutOfReach(..) | Inject::BackwardAtSize(..) | Inject::HighOrigin(_)) || uses_stack;
+    obs.nontrivial = matches!(inject, Inject::OutOfReach(..) | Inject::BackwardAtSize(..) | Inject::HighOrigin(_) | Inject::InvalidUtf8(_)) || uses_stack;
     obs.label(match inject {
         Inject::None => "source-valid",
         Inject::HighOrigin(_) => "image-ends-around-top-of-memory",
+        Inject::InvalidUtf8(_) => "file-is-not-utf8",
         Inject::OutOfReach(..) | Inject::BackwardAtSize(..) if valid => "reference-barely-in-reach",
         Inject::OutOfReach(..) | Inject::BackwardAtSize(..) => "error-only-at-emission",
         _ => "error-before-emission",
@@ -197,7 +229,13 @@ fn judge_source(spec: &ProgSpec, inject: Inject, stack_flag: bool) -> Obs {
         return obs;
     }
     let dir = TempDir::new();
-    dir.write("f.asm", text.as_bytes());
+    // how the file is called must not matter
+    let stem = cli::stem(obs.key >> 24);
+    let src: &str = &format!("{stem}.asm");
+    if stem != "prog" {
+        obs.label("unusual-file-name");
+    }
+    dir.write(src, &file_bytes(&text, inject));
     // the three documented spellings of the flag
     let feat: Vec<&str> = if stack_flag {
         match obs.key % 3 {
@@ -208,15 +246,15 @@ fn judge_source(spec: &ProgSpec, inject: Inject, stack_flag: bool) -> Obs {
     } else {
         vec![]
     };
-    let check = cli::lace(&["check", "f.asm"], dir.path(), &[], false, 30);
-    let mut a = vec!["compile", "f.asm", "out.lc3"];
+    let check = cli::lace(&["check", src], dir.path(), &[], false, 30);
+    let mut a = vec!["compile", src, "out.lc3"];
     a.extend(&feat);
     let compile = cli::lace(&a, dir.path(), &[], false, 30);
-    let mut a = vec!["run", "f.asm"];
+    let mut a = vec!["run", src];
     a.extend(&feat);
     let run = cli::lace(&a, dir.path(), &[], false, 60);
     // `lace <file>` (no sub-command) is the quick way to run: it must behave like `run`
-    let mut a = vec!["f.asm"];
+    let mut a = vec![src];
     a.extend(&feat);
     let bare = cli::lace(&a, dir.path(), &[], false, 60);
     if check.timed_out || compile.timed_out || run.timed_out || bare.timed_out {
@@ -529,6 +567,7 @@ fn source_cases() -> impl Strategy<Value = Case> {
         6 => (any::<u8>(), any::<u8>()).prop_map(|(a, b)| Inject::OutOfReach(a, b)),
         3 => (any::<u8>(), any::<u8>()).prop_map(|(a, b)| Inject::BackwardAtSize(a, b)),
         2 => any::<u8>().prop_map(Inject::HighOrigin),
+        2 => any::<u8>().prop_map(Inject::InvalidUtf8),
     ];
     (proggen::prog_spec(10), inject, any::<bool>()).prop_map(|(spec, inject, stack_flag)| Case::Source { spec, inject, stack_flag })
 }
@@ -541,7 +580,7 @@ impl Prop for C07 {
         true
     }
     fn rule(&self) -> &'static str {
-        "ProgGen sources, valid and with one injected error of every class (lexical, operand kind, literal range, duplicate label, undefined label, repeated .orig, and a label out of reach at ANY statement position for every PC-relative form BR/BRz/LD/LDI/LEA/ST/STI/JSR/CALL - the only class that surfaces when words are emitted; paddings barely / comfortably / far beyond the reach, and backward references in programs whose total size sits exactly at the reach of the field), valid programs whose image ends within 2 words of the top of memory, with and without stack mnemonics, with and without `--features stack`, through the real binary: `lace check f.asm`, `lace compile f.asm out.lc3 [flags]`, `lace run f.asm [flags]` and the bare `lace f.asm [flags]` (flag spelled `-f stack`, `--features stack` or `--features=stack`). \
+        "ProgGen sources, valid and with one injected error of every class (lexical, operand kind, literal range, duplicate label, undefined label, repeated .orig, and a label out of reach at ANY statement position for every PC-relative form BR/BRz/LD/LDI/LEA/ST/STI/JSR/CALL - the only class that surfaces when words are emitted; paddings barely / comfortably / far beyond the reach, and backward references in programs whose total size sits exactly at the reach of the field), valid programs whose image ends within 2 words of the top of memory, files that are not UTF-8 (a Latin-1 byte, truncated or invalid sequences - in a comment, a string literal, a label or as a token), 20 kinds of file name, with and without stack mnemonics, with and without `--features stack`, through the real binary: `lace check f.asm`, `lace compile f.asm out.lc3 [flags]`, `lace run f.asm [flags]` and the bare `lace f.asm [flags]` (flag spelled `-f stack`, `--features stack` or `--features=stack`). \
          Oracle: compile and run (same flags) agree on whether the source assembles (run reaches 'Running emitted binary' iff compile exits 0); compile rejects => run and (default setting) check report an error, where a crash (status 101 / signal / panic message) never counts as a report; check succeeds => compile succeeds; check never crashes. \
          `lace watch`: three fixed scenarios of 3-7 plain rewrites (same labelled source twice, failures half-way then valid again, stack mnemonics) and 16 (quick) / 80 (thorough) generated ones - 4-7 contents from a pool of ten sources that share label names (valid, failing in the lexer, parser, at backpatch, at emission, on a duplicate label), each saved by rewriting in place, remove-then-create, rename-over or a two-step write, optionally after another file of the folder was created, removed or written: after each debounced re-check the verdict printed (Success / diagnostic / crash) must equal `lace check` on the same content; a scenario that yields no verdict within 15 s is recorded as inconclusive and not asserted. \
          Non-trivial: the only error is an emission-time one, or the source uses a stack mnemonic, or a watch scenario. Distinct = hash(source, flag)."
